@@ -384,7 +384,7 @@ func pickValueFor(r *Rng, name string) int {
 		"s": {"str", "empty", "f3", "i5", "MyStr", "redacted"}, "n": {"f3", "i5", "str", "int(4)", "f3.5", "f2^53+2", "f2^63", "f-2^63"},
 		"i8": {"f3", "f300", "i5", "int8(7)", "f3.5"}, "u8": {"f3", "f-1", "i-5", "f300"},
 		"f32": {"f3.5", "f1e20", "i5", "i2^40", "float32(1.5)", "fmaxf32", "f-maxf32", "f0.1", "f1e-45"}, "f64": {"f3.5", "i5", "str", "f0.1", "f2^53+2"},
-		"b": {"true", "str"}, "any": {"str", "nil", "f3", "mapP"}, "myint": {"f3", "MyInt(9)", "int(4)", "i5"},
+		"b": {"true", "str"}, "any": {"str", "nil", "f3", "mapP", "redactedBytes", "redacted", "bytes"}, "myint": {"f3", "MyInt(9)", "int(4)", "i5"},
 		"mystr": {"str", "MyStr"}, "p": {"mapP", "mapBadP", "P", "ptrP", "listInts", "mapNaN"}, "ints": {"listInts", "listStr", "mapP", "listChan", "listInf"},
 		"zz": {"nil", "str", "f3", "nil"}, "ierr": {"str", "f3", "nil", "mapP"}, "istr": {"str", "MyStr", "nil", "true"},
 		"msi": {"mapSI", "mapP"}, "arr": {"arr2", "arr3", "listInts"}, "arr3": {"arr2", "arr3"},
